@@ -1,4 +1,666 @@
 package sim
 
-// filled in with the fake server (fakesrv.go)
+import (
+	"fmt"
+	"io"
+	"strings"
+	"syscall"
+
+	"github.com/hugelgupf/p9/p9"
+	rc "github.com/hugelgupf/p9/zzverif/refcodec"
+	"github.com/hugelgupf/p9/zzverif/simnet"
+	"github.com/hugelgupf/p9/zzverif/simrt"
+)
+
+// Client-side halves of C12, C13, C02, C17 and C18 (engine E2).
+
 func runC12Client(rcx *RunCtx) { runC12ClientImpl(rcx) }
+
+var c12Offers = []string{"", "9P2000.L", "9P2000.L.Google.1", "9P2000.L.Google.2", "9P2000.L.Google.3", "9P2000.L.Google.6", "9P2000.L.Google.7",
+	"unknown", "9P2000", "9P2000.u", "9p2000.l", "9P2000.L.Google.", "9P2000.L.Google.x", "garbage\x00", "9P2000.L.Google.1.2"}
+
+// typesAllowed: message types a client may send at .Google.N
+func typeAllowedAt(t uint8, v uint32) bool {
+	switch t {
+	case rc.TypeTwalkgetattr:
+		return v >= 2
+	case rc.TypeTucreate, rc.TypeTumkdir, rc.TypeTumknod, rc.TypeTusymlink:
+		return v >= 3
+	}
+	return true
+}
+
+func versionNumber(s string) (uint32, bool) {
+	if s == "9P2000.L" {
+		return 0, true
+	}
+	const pfx = "9P2000.L.Google."
+	if !strings.HasPrefix(s, pfx) || len(s) == len(pfx) {
+		return 0, false
+	}
+	var n uint32
+	for _, c := range []byte(s[len(pfx):]) {
+		if c < '0' || c > '9' {
+			return 0, false
+		}
+		n = n*10 + uint32(c-'0')
+	}
+	return n, true
+}
+
+func runC12ClientImpl(rcx *RunCtx) {
+	cfg := simCfg(rcx)
+	p := rcx.Plan
+	reqMsize := []uint32{154, 4096, 8192, 65536, 1 << 20}[p.Choose(5)]
+	offerV := c12Offers[p.Choose(len(c12Offers))]
+	offerM := []uint32{0, reqMsize, reqMsize - 1, reqMsize / 2, 154, 153, 100, 23, reqMsize + 1, 4 << 20}[p.Choose(10)]
+	eagain := []int{0, 0, 0, 1, 3, 7, 8, 9}[p.Choose(8)]
+	otherErr := uint32(0)
+	if p.Choose(8) == 0 {
+		otherErr = []uint32{EIO, EINVAL, ENOSYS}[p.Choose(3)]
+	}
+	rcx.Label = "client"
+	rcx.Sample = map[string]interface{}{"side": "client", "requested_msize": reqMsize, "offered_version": fmt.Sprintf("%q", offerV), "offered_msize": offerM, "eagain_replies": eagain, "other_rlerror": otherErr}
+	cw := &cliWorld{rcx: rcx, prop: "C12"}
+	rcx.Res = simrt.Run(cfg, rcx.Sched, func() {
+		fake := NewFakeSrv("cli")
+		cw.Fake = fake
+		fake.Version = offerV
+		fake.Msize = offerM
+		fake.EAgain = eagain
+		fake.VersionErr = otherErr
+		if offerM == 0 {
+			fake.Msize = 0
+		}
+		fake.Policy = func(r *fsReq) rc.Message {
+			if t, ok := r.Msg.(*rc.Tversion); ok && fake.EAgain == 0 && fake.VersionErr == 0 {
+				m := t.Msize
+				if offerM != 0 {
+					m = offerM // the server may even offer MORE than asked; the client must not use more than it asked for
+				}
+				v := offerV
+				if v == "" {
+					v = t.Version
+				}
+				return &rc.Rversion{Msize: m, Version: v}
+			}
+			return nil
+		}
+		simrt.GoNamed("fakesrv", func() { fake.Serve(nil) })
+		cl, err := p9.NewClient(fake.Net.A, p9.WithMessageSize(reqMsize))
+		// what did the server finally offer?
+		var offered *rc.Rversion
+		nver := 0
+		for _, r := range fake.Reqs {
+			if _, ok := r.Msg.(*rc.Tversion); ok {
+				nver++
+				if rv, ok := r.Reply.(*rc.Rversion); ok {
+					offered = rv
+				}
+			}
+		}
+		rcx.Count("tversions_sent", nver)
+		wantFail := false
+		why := ""
+		switch {
+		case otherErr != 0 && eagain < 8:
+			wantFail, why = true, "the server answered Tversion with an error"
+		case eagain >= 8:
+			wantFail, why = true, "the server refused every version down to 0"
+		case offered != nil:
+			if _, ok := versionNumber(offered.Version); !ok {
+				wantFail, why = true, fmt.Sprintf("the offered version %q is not a 9P2000.L version", offered.Version)
+			}
+		}
+		if offered != nil && !wantFail && offered.Msize <= 153 {
+			// no room for a payload at all: failing is the only sane outcome, proceeding is not required
+			if err == nil {
+				rcx.Count("proceeded_with_tiny_msize", 1)
+			}
+			cw.shutdownQuiet(cl)
+			return
+		}
+		if wantFail {
+			if err == nil {
+				cw.find("newclient-proceeded", "version", "NewClient succeeded although %s", why)
+			}
+			cw.shutdownQuiet(cl)
+			return
+		}
+		if err != nil {
+			cw.find("newclient-failed", "version", "NewClient failed (%v) although the server offered %+v", err, offered)
+			fake.Stop()
+			return
+		}
+		cw.Client = cl
+		wantV, _ := versionNumber(offered.Version)
+		if cl.Version() != wantV {
+			cw.find("version-not-adopted", "version", "server offered %q, Client.Version() = %d", offered.Version, cl.Version())
+		}
+		effM := offered.Msize
+		if effM > reqMsize {
+			effM = reqMsize
+		}
+		fake.Mon.Msize = effM
+		// use the connection: every later frame fits the offered msize and
+		// uses only message types the offered version defines
+		root, err := cl.Attach("")
+		if err != nil {
+			cw.find("setup", "attach", "Attach failed: %v", err)
+			cw.shutdown()
+			return
+		}
+		cw.hold(root)
+		files := []p9.File{root}
+		nreq := len(fake.Reqs)
+		if effM >= 2048 { // the canned replies of the fake server need some room themselves
+			for i := 0; i < 25; i++ {
+				cw.doOp(simrt.Choose, &files, false)
+			}
+		} else {
+			// (every File is kept reachable: a finalizer must never run p9 code)
+			root.Mkdir("d", 0o700, 1, 2)
+			_, f1, _ := root.Walk([]string{"a"})
+			cw.hold(f1)
+			_, f2, _, _, _ := root.WalkGetAttr([]string{"a"})
+			cw.hold(f2)
+			if _, w, _ := root.Walk(nil); w != nil {
+				cw.hold(w)
+				f3, _, _, _ := w.Create("c", p9.ReadWrite, 0o600, 1, 2)
+				cw.hold(f3)
+			}
+		}
+		big := make([]byte, int(effM)*2+100)
+		root.WriteAt(big, 0)
+		root.ReadAt(big, 0)
+		for _, r := range fake.Reqs[nreq:] {
+			if !typeAllowedAt(r.Frame.Type, wantV) {
+				cw.find("message-type-not-in-version", rc.TypeName(r.Frame.Type), "at negotiated version %d the client sent %s", wantV, r.Frame)
+			}
+			if r.Frame.Size > effM {
+				cw.find("frame-exceeds-offered-msize", rc.TypeName(r.Frame.Type), "offered msize %d (requested %d), client sent a %d-byte %s", offered.Msize, reqMsize, r.Frame.Size, rc.TypeName(r.Frame.Type))
+			}
+			if t, ok := r.Msg.(*rc.Tread); ok && 11+t.Count > effM {
+				cw.find("reply-cannot-fit-offered-msize", "Tread", "offered msize %d, Tread count %d solicits a %d-byte Rread", effM, t.Count, 11+t.Count)
+			}
+		}
+		cw.shutdown()
+		rcx.Findings = append(rcx.Findings, fake.Findings...)
+	})
+	finishRun(rcx)
+	for i := range rcx.Findings {
+		f := &rcx.Findings[i]
+		if f.Prop == "C16" {
+			f.Prop = "C12"
+		}
+	}
+}
+
+// shutdownQuiet ends a run in which NewClient may or may not have returned a client.
+func (cw *cliWorld) shutdownQuiet(cl *p9.Client) {
+	cw.Fake.Net.S2C.CloseWrite()
+	cw.Fake.Net.C2S.CloseRead()
+	cw.Fake.Stop()
+}
+
+// ------------------------------------------------------------------ C13 client
+
+func runC13Client(rcx *RunCtx) {
+	cfg := simCfg(rcx)
+	p := rcx.Plan
+	reqMsize := []uint32{4096, 8192, 65536, 1 << 20}[p.Choose(4)]
+	offerM := []uint32{154, 155, 512, 1024, reqMsize / 2, reqMsize - 1, reqMsize}[p.Choose(7)]
+	if offerM > reqMsize {
+		offerM = reqMsize
+	}
+	xsize := []int{0, 1, 100, int(offerM) - 154, int(offerM), int(offerM) * 3, 70000}[p.Choose(7)]
+	if xsize < 0 {
+		xsize = 0
+	}
+	rcx.Label = "client"
+	rcx.Sample = map[string]interface{}{"side": "client", "requested_msize": reqMsize, "offered_msize": offerM, "xattr_size": xsize}
+	cw := &cliWorld{rcx: rcx, prop: "C13"}
+	rcx.Res = simrt.Run(cfg, rcx.Sched, func() {
+		fake := NewFakeSrv("cli")
+		cw.Fake = fake
+		fake.Msize = offerM
+		val := nbytes(77, xsize)
+		fake.Policy = func(r *fsReq) rc.Message {
+			switch m := r.Msg.(type) {
+			case *rc.Txattrwalk:
+				return &rc.Rxattrwalk{Size: uint64(xsize)}
+			case *rc.Tread:
+				if m.Fid != 1 { // the xattr fid
+					end := int(m.Offset) + int(m.Count)
+					if int(m.Offset) > len(val) {
+						return &rc.Rread{}
+					}
+					if end > len(val) {
+						end = len(val)
+					}
+					return &rc.Rread{Data: append([]byte{}, val[m.Offset:end]...)}
+				}
+			}
+			return nil
+		}
+		simrt.GoNamed("fakesrv", func() { fake.Serve(nil) })
+		cl, err := p9.NewClient(fake.Net.A, p9.WithMessageSize(reqMsize))
+		if err != nil {
+			cw.find("setup", "newclient", "NewClient failed: %v", err)
+			fake.Stop()
+			return
+		}
+		cw.Client = cl
+		fake.Mon.Msize = offerM
+		root, err := cl.Attach("")
+		if err != nil {
+			cw.find("setup", "attach", "%v", err)
+			cw.shutdown()
+			return
+		}
+		cw.hold(root)
+		nreq := len(fake.Reqs)
+		v, err := root.GetXattr("user.big")
+		if err != nil {
+			cw.find("getxattr-failed", "GetXattr", "GetXattr of a %d-byte value at offered msize %d failed: %v", xsize, offerM, err)
+		} else if string(v) != string(val) {
+			cw.find("getxattr-wrong-value", "GetXattr", "GetXattr returned %d bytes, the value has %d", len(v), len(val))
+		}
+		buf := make([]byte, int(offerM)*2+13)
+		root.ReadAt(buf, 5)
+		root.WriteAt(buf, 7)
+		root.Readdir(0, offerM*3)
+		for _, r := range fake.Reqs[nreq:] {
+			if r.Frame.Size > offerM {
+				cw.find("request-exceeds-msize", rc.TypeName(r.Frame.Type), "server announced msize %d, client sent a %d-byte %s", offerM, r.Frame.Size, rc.TypeName(r.Frame.Type))
+			}
+			if t, ok := r.Msg.(*rc.Tread); ok && 11+t.Count > offerM {
+				cw.find("reply-cannot-fit-msize", "Tread", "server announced msize %d, Tread count %d solicits a %d-byte Rread", offerM, t.Count, 11+t.Count)
+			}
+		}
+		cw.shutdown()
+		rcx.Findings = append(rcx.Findings, fake.Findings...)
+		rcx.Findings = append(rcx.Findings, fake.Mon.Findings...)
+	})
+	finishRun(rcx)
+}
+
+// ------------------------------------------------------------------ C02 client
+
+func runC02Client(rcx *RunCtx) {
+	cfg := simCfg(rcx)
+	p := rcx.Plan
+	ngood := p.Choose(12)
+	seg := []int{simnet.SegWhole, simnet.SegRandom, simnet.SegByte}[p.Choose(3)]
+	msize := []uint32{8192, 1024, 65536}[p.Choose(3)]
+	overlong := p.Choose(5) == 0 // a well-formed reply carrying more than was asked for
+	rcx.Label = "client"
+	cw := &cliWorld{rcx: rcx, prop: "C02"}
+	what := "none"
+	rcx.Res = simrt.Run(cfg, rcx.Sched, func() {
+		fake := NewFakeSrv("cli")
+		cw.Fake = fake
+		fake.Net.S2C.Seg = seg
+		fake.maxFrame = msize
+		answered := 0
+		hook := func(f *FakeSrv) bool {
+			if len(f.pend) == 0 || cw.dead {
+				if cw.dead {
+					simrt.Block("fakesrv: dead", func() bool { return f.stop })
+				}
+				return true
+			}
+			r := f.pend[0]
+			if answered < ngood+2 { // version, attach, then ngood strict replies
+				answered++
+				return false
+			}
+			// one hostile frame, then the stream ends
+			cw.faulted, cw.postBad = true, true
+			f.broken = true
+			var b []byte
+			if overlong {
+				switch m := r.Msg.(type) {
+				case *rc.Tread:
+					b, what = rc.Encode(r.Frame.Tag, &rc.Rread{Data: make([]byte, int(m.Count)+1+simrt.Choose(300))}), "Rread longer than asked"
+				case *rc.Twrite:
+					b, what = rc.Encode(r.Frame.Tag, &rc.Rwrite{Count: uint32(len(m.Data) + 1 + simrt.Choose(1000))}), "Rwrite count larger than sent"
+				case *rc.Twalk:
+					b, what = rc.Encode(r.Frame.Tag, &rc.Rwalk{QIDs: make([]rc.QID, len(m.Names)+1+simrt.Choose(20))}), "Rwalk with more QIDs than names"
+				case *rc.Txattrwalk:
+					b, what = rc.Encode(r.Frame.Tag, &rc.Rxattrwalk{Size: 1 << uint(20+simrt.Choose(43))}), "Rxattrwalk with an enormous size"
+				}
+			}
+			if b == nil {
+				good := rc.Encode(r.Frame.Tag, f.DefaultReply(r))
+				b, what = c02Mutate(simrt.Choose, good, msize)
+			}
+			simrt.Fault("client-side.hostile-frame")
+			f.Net.B.Write(b)
+			f.Net.S2C.CloseWrite()
+			cw.dead = true
+			return true
+		}
+		simrt.GoNamed("fakesrv", func() { fake.Serve(hook) })
+		cl, err := p9.NewClient(fake.Net.A, p9.WithMessageSize(msize))
+		if err != nil {
+			cw.shutdownQuiet(cl)
+			return
+		}
+		cw.Client = cl
+		root, err := cl.Attach("")
+		if err != nil {
+			cw.shutdown()
+			return
+		}
+		cw.hold(root)
+		files := []p9.File{root}
+		for i := 0; i < ngood+6; i++ {
+			cw.doOp(simrt.Choose, &files, false)
+		}
+		if mb := fake.Net.S2C.MaxReadBuf; mb > int(msize) && mb > 4<<20 {
+			cw.find("unbounded-buffer", "read", "the client issued a Read with a %d-byte buffer (msize %d)", mb, msize)
+		}
+		cw.shutdown()
+		rcx.Findings = append(rcx.Findings, fake.Findings...)
+	})
+	rcx.Sample = map[string]interface{}{"receiver": "client", "good_replies_first": ngood, "hostile_frame": what, "segmentation": seg, "msize": msize}
+	finishRun(rcx)
+	for i := range rcx.Findings {
+		f := &rcx.Findings[i]
+		if f.Prop == "C16" {
+			f.Prop = "C02"
+			if f.Oracle == "deadlock" {
+				f.Oracle, f.Key = "client-hang-after-eof", "client-hang-after-eof"
+			}
+		}
+	}
+}
+
+// ------------------------------------------------------------------ C17 client
+
+// sockRWC is a client connection whose read side is a real socket pair.
+type sockRWC struct {
+	r *simnet.SockReader
+	w *simnet.End
+}
+
+func (s *sockRWC) Read(p []byte) (int, error)           { return s.r.Read(p) }
+func (s *sockRWC) Write(p []byte) (int, error)          { return s.w.Write(p) }
+func (s *sockRWC) Close() error                         { s.r.Close(); return s.w.Close() }
+func (s *sockRWC) SyscallConn() (syscall.RawConn, error) { return s.r.SyscallConn() }
+
+var _ io.ReadWriteCloser = (*sockRWC)(nil)
+
+func runC17Client(rcx *RunCtx) {
+	cfg := simCfg(rcx)
+	p := rcx.Plan
+	sock := p.Choose(2) == 1
+	seg := []int{simnet.SegWhole, simnet.SegRandom, simnet.SegByte, simnet.SegRandom}[p.Choose(4)]
+	ncallers := 1 + p.Choose(3)
+	nops := 4 + p.Choose(12)
+	endMid := p.Choose(5) == 0
+	path := "io.Reader"
+	if sock {
+		path = "socketpair/recvmsg"
+	}
+	rcx.Label = "client " + path
+	rcx.Sample = map[string]interface{}{"receiver": "client", "path": path, "segmentation": seg, "callers": ncallers, "calls": nops, "stream_ends_inside_a_frame": endMid}
+	cw := &cliWorld{rcx: rcx, prop: "C17"}
+	rcx.Res = simrt.Run(cfg, rcx.Sched, func() {
+		fake := NewFakeSrv("cli")
+		cw.Fake = fake
+		var conn io.ReadWriteCloser = fake.Net.A
+		var sr *simnet.SockReader
+		if sock {
+			var err error
+			sr, err = simnet.NewSockReader("cli.sock")
+			if err != nil {
+				panic(err)
+			}
+			sr.Seg = seg
+			conn = &sockRWC{r: sr, w: fake.Net.A}
+		} else {
+			fake.Net.S2C.Seg = seg
+		}
+		total := ncallers*nops + 2
+		sent := 0
+		hook := func(f *FakeSrv) bool {
+			if cw.dead {
+				simrt.Block("fakesrv: dead", func() bool { return f.stop })
+				return true
+			}
+			if len(f.pend) == 0 {
+				return true
+			}
+			r := f.pend[simrt.Choose(len(f.pend))]
+			rep := f.DefaultReply(r)
+			b := rc.Encode(r.Frame.Tag, rep)
+			sent++
+			if endMid && sent > total/2 {
+				// the stream ends inside this frame
+				cw.faulted, cw.dead, cw.deadSeq = true, true, len(f.Reqs)
+				f.broken = true
+				b = b[:1+simrt.Choose(len(b)-1)]
+				if sr != nil {
+					fake.Mon.Rep.feed(simrt.Current(), b)
+					sr.Feed(b)
+					sr.FinishFeed()
+					simrt.Yield("feed")
+				} else {
+					f.Net.B.Write(b)
+					f.Net.S2C.CloseWrite()
+				}
+				return true
+			}
+			f.noteReply(r, rep)
+			if sr != nil {
+				fake.Mon.Rep.feed(simrt.Current(), b)
+				sr.Feed(b)
+				simrt.Yield("feed")
+			} else {
+				f.Net.B.Write(b)
+			}
+			return true
+		}
+		simrt.GoNamed("fakesrv", func() { fake.Serve(hook) })
+		cl, err := p9.NewClient(conn, p9.WithMessageSize(8192))
+		if err != nil {
+			cw.find("setup", "newclient", "NewClient failed: %v", err)
+			fake.Stop()
+			return
+		}
+		cw.Client = cl
+		root, err := cl.Attach("")
+		if err != nil {
+			if !cw.faulted {
+				cw.find("setup", "attach", "%v", err)
+			}
+			cw.shutdownSock(sr)
+			return
+		}
+		cw.hold(root)
+		done := 0
+		for i := 0; i < ncallers; i++ {
+			simrt.GoNamed(fmt.Sprintf("caller%d", i), func() {
+				files := []p9.File{root}
+				for k := 0; k < nops; k++ {
+					cw.doOp(simrt.Choose, &files, false)
+				}
+				done++
+			})
+		}
+		simrt.Block("callers done", func() bool { return done == ncallers })
+		cw.shutdownSock(sr)
+		rcx.Findings = append(rcx.Findings, fake.Findings...)
+	})
+	finishRun(rcx)
+	for i := range rcx.Findings {
+		f := &rcx.Findings[i]
+		if f.Prop == "C16" {
+			f.Prop = "C17"
+		}
+	}
+}
+
+func (cw *cliWorld) shutdownSock(sr *simnet.SockReader) {
+	cw.faulted, cw.dead = true, true
+	if sr != nil {
+		sr.FinishFeed()
+	}
+	cw.Fake.Net.S2C.CloseWrite()
+	cw.Fake.Net.C2S.CloseRead()
+	for _, f := range cw.keep {
+		f.Close()
+	}
+	cw.Fake.Stop()
+	if sr != nil {
+		sr.Close()
+	}
+}
+
+// ------------------------------------------------------------------ C18 client
+
+func runC18Client(rcx *RunCtx) {
+	cfg := simCfg(rcx)
+	cfg.PoolMissPct = []int{0, 20, 50, 90}[rcx.Plan.Choose(4)]
+	p := rcx.Plan
+	kind := p.Choose(5)
+	n := 6 + p.Choose(20)
+	ncallers := 1 + p.Choose(3)
+	rcx.Label = fmt.Sprintf("client kind=%d", kind)
+	rcx.Sample = map[string]interface{}{"receiver": "client", "reply_kind": []string{"Rwalk qid lists", "Rread payloads", "Rreaddir entries", "Rreadlink strings", "mixed"}[kind], "train_length": n, "callers": ncallers, "pool_miss_pct": cfg.PoolMissPct}
+	cw := &cliWorld{rcx: rcx, prop: "C18"}
+	shapes := []int{16, 9, 1, 0, 3, 0, 16, 2, 0}
+	rcx.Res = simrt.Run(cfg, rcx.Sched, func() {
+		fake := NewFakeSrv("cli")
+		cw.Fake = fake
+		fake.Policy = func(r *fsReq) rc.Message {
+			sz := shapes[r.Seq%len(shapes)]
+			switch m := r.Msg.(type) {
+			case *rc.Tread:
+				k := sz * 60
+				if k > int(m.Count) {
+					k = int(m.Count)
+				}
+				return &rc.Rread{Data: nbytes(r.Nonce, k)}
+			case *rc.Treaddir:
+				var ds []rc.Dirent
+				used := 0
+				for i := 0; i < sz; i++ {
+					d := rc.Dirent{QID: nqid(r.Nonce + uint64(i)), Offset: uint64(i + 1), Type: uint8(i), Name: strings.Repeat("e", 1+(i*7)%40)}
+					if used+rc.DirentSize(d.Name) > int(m.Count) {
+						break
+					}
+					used += rc.DirentSize(d.Name)
+					ds = append(ds, d)
+				}
+				return &rc.Rreaddir{Data: rc.EncodeDirents(ds)}
+			case *rc.Treadlink:
+				return &rc.Rreadlink{Target: strings.Repeat("L", sz*30)}
+			}
+			return nil
+		}
+		simrt.GoNamed("fakesrv", func() { fake.Serve(nil) })
+		cl, err := p9.NewClient(fake.Net.A, p9.WithMessageSize(8192))
+		if err != nil {
+			cw.find("setup", "newclient", "%v", err)
+			fake.Stop()
+			return
+		}
+		cw.Client = cl
+		root, err := cl.Attach("")
+		if err != nil {
+			cw.find("setup", "attach", "%v", err)
+			cw.shutdown()
+			return
+		}
+		cw.hold(root)
+		done := 0
+		for c := 0; c < ncallers; c++ {
+			simrt.GoNamed(fmt.Sprintf("caller%d", c), func() {
+				for i := 0; i < n; i++ {
+					from := len(fake.Reqs)
+					k := kind
+					if kind == 4 {
+						k = simrt.Choose(4)
+					}
+					switch k {
+					case 0:
+						var names []string
+						for j := 0; j < shapes[(i+simrt.Choose(2))%len(shapes)]; j++ {
+							names = append(names, fmt.Sprintf("n%d", j))
+						}
+						qs, nf, err := root.Walk(names)
+						cw.hold(nf)
+						cw.judge("Walk", from, err, func(rep rc.Message) string {
+							r, ok := rep.(*rc.Rwalk)
+							if !ok {
+								return "reply type " + rc.String(rep)
+							}
+							if len(qs) == 0 && len(r.QIDs) == 0 {
+								return ""
+							}
+							return diff("QIDs", qs, qidsFromRC(r.QIDs))
+						})
+					case 1:
+						pbuf := make([]byte, 1000)
+						nn, err := root.ReadAt(pbuf, int64(simrt.Choose(50)))
+						if err == io.EOF {
+							err = nil
+						}
+						cw.judge("ReadAt", from, err, func(rep rc.Message) string {
+							r, ok := rep.(*rc.Rread)
+							if !ok {
+								return "reply type " + rc.String(rep)
+							}
+							if nn != len(r.Data) || string(pbuf[:nn]) != string(r.Data) {
+								return fmt.Sprintf("read %d bytes %x…, the reply to this request carries %d bytes %x…", nn, head(pbuf[:nn]), len(r.Data), head(r.Data))
+							}
+							// nothing beyond n may have been touched
+							for _, b := range pbuf[nn:] {
+								if b != 0 {
+									return "bytes beyond the returned count were written into the caller's buffer"
+								}
+							}
+							return ""
+						})
+					case 2:
+						ds, err := root.Readdir(0, 4000)
+						cw.judge("Readdir", from, err, func(rep rc.Message) string {
+							r, ok := rep.(*rc.Rreaddir)
+							if !ok {
+								return "reply type " + rc.String(rep)
+							}
+							want, _ := rc.DecodeDirents(r.Data)
+							if len(ds) == 0 && len(want) == 0 {
+								return ""
+							}
+							return diff("entries", ds, direntsFromRC(want))
+						})
+					case 3:
+						t, err := root.Readlink()
+						cw.judge("Readlink", from, err, func(rep rc.Message) string {
+							r, ok := rep.(*rc.Rreadlink)
+							if !ok {
+								return "reply type " + rc.String(rep)
+							}
+							return diff("target", t, r.Target)
+						})
+					}
+				}
+				done++
+			})
+		}
+		simrt.Block("callers done", func() bool { return done == ncallers })
+		cw.shutdown()
+		rcx.Findings = append(rcx.Findings, fake.Findings...)
+	})
+	finishRun(rcx)
+	for i := range rcx.Findings {
+		f := &rcx.Findings[i]
+		if f.Prop == "C16" {
+			f.Prop = "C18"
+		}
+	}
+}
